@@ -40,6 +40,9 @@ CHECKS = {
  "C03": dict(engine="vsched", technique="stateless exhaustive exploration of thread interleavings of the real histogram under a controlled scheduler + conservation/growth/batch-atomicity/termination oracles",
    text="Drivers with >=3 collections, 1-2 collector threads, direct observers, local-batch flushers and get_sample_* readers are run on every interleaving (Mode U / preemption bound as C02): snapshots ordered in real time grow, a batch is in a snapshot entirely or not at all, the quiescent snapshot and get_sample_count/sum describe exactly all observations, no deadlock/livelock, and a collector that spins does so only while an observe/flush call is in flight.",
    note="SC interleavings; <=4 threads; Mode B drivers hold up to the stated preemption bound", ref="6 C03"),
+ "C10": dict(engine="vsched+statespace", technique="stateless exhaustive exploration of thread interleavings of the real vector (sleep sets / preemption bound) + Wing-Gong linearizability vs. map-of-children spec; exhaustive enumeration of sequential histories (stateright BFS)",
+   text="(E1) all program pairs (<=2 ops, quick: total length <=3) and five 3-thread drivers over {get-or-create+update, remove, reset, collect, update through a kept handle} on 3 vector flavours (list and map request forms mixed) from 3 start states, on every interleaving of lock/atomic/call-boundary steps; histories incl. a quiescent collect must be linearizable w.r.t. a map key->child, child values decoded per child with interval semantics. (E2) every sequential history up to depth 5 (thorough 6) replayed against the reference after each step.",
+   note="SC interleavings; 2 keys, <=3 threads; 3-thread HistogramVec drivers bounded to 2 preemptions in the quick tier", ref="6 C10"),
 }
 
 NOT_YET = "check not built yet in this round; planned per DESIGN.md section 6"
